@@ -156,7 +156,7 @@ theorem intak_iff (env : Env P M) (hg : ∀ n, GameOK (env.game n)) (he : ∀ n,
         | ok x =>
           obtain ⟨pv, v⟩ := x
           simp only [] at hresp
-          obtain ⟨_, _, _, _, _, h, rs, eng, eng0, _, st, hok, hrun0, han, _, _⟩ :=
+          obtain ⟨_, _, _, _, _, h, rs, eng, eng0, st, hok, hrun0, han, _⟩ :=
             callPlayer_history Quiet env o ho _ q hgi pv v c' hcp
           rw [hd, hpr] at hrun0 han
           -- the cached engine satisfies the depth-1 table invariant, so this call is exact
@@ -215,7 +215,7 @@ theorem intak_pv0_in_range (env : Env P M) (hg : ∀ n, GameOK (env.game n)) (he
   obtain ⟨ac, ic⟩ := s
   obtain ⟨_, hic⟩ := hinv
   obtain ⟨hgi, hsz, hd, hpr⟩ := getPlayer_inv Quiet env ic (env.size p) 1 true hic
-  obtain ⟨_, _, _, _, _, h, rs, eng, eng0, _, st, hok, hrun0, han, _, _⟩ :=
+  obtain ⟨_, _, _, _, _, h, rs, eng, eng0, st, hok, hrun0, han, _⟩ :=
     callPlayer_history Quiet env o ho _ q hgi pv v c' hcall
   rw [hd, hpr] at hrun0 han
   have ht0 := runCalls_t1 (hg (env.size q)) (he (env.size q)) (hb (env.size q)) (hinj (env.size q))
